@@ -501,12 +501,24 @@ class ServerSim:
         self.binds = 0
         self.stream_closed = False
         self.known_lost = []
+        self.last_blob, self.poked = None, False     # newest non-empty blob; counters set behind the library's back since
+        self.blob_handled = {0}          # inbound counts the application has been shown in a blob (or that `poke` put there)
 
     # -- what the client wrote -----------------------------------------------------------------------
     def ingest(self, seg):
         if self.parser is None:
             return
         for t in seg.split():
+            if t.startswith("SM0:"):
+                # the blob handed to the application is the other place where the property lets `h` be observed
+                try:
+                    bl = parse_blob(t[4:])
+                except (AssertionError, ValueError, IndexError):
+                    bl = None
+                if bl is not None:
+                    self.blob_handled.add(bl[1])
+                    self.last_blob, self.poked = bl, False
+                continue
             m = re.match(r"W(\d+):([0-9a-f]+)$", t)
             if not m:
                 continue
@@ -538,6 +550,11 @@ class ServerSim:
         if k == "sm:resume":
             self.awaiting = ("resume", attr(el, "previd"), attr(el, "h"))
             v.bump("resume-requests")
+            lb = self.last_blob
+            if (lb is not None and not self.poked and not v.dishonest and (attr(el, "h") or "").isdigit()
+                    and lb[2].decode("latin1") == attr(el, "previd") and lb[1] != int(attr(el, "h"))):
+                v.c05.append(("blob-h", "<resume h=%s/> from the live object, but the newest blob the application was given for that session "
+                                        "carries inbound count %d (restored from it, the client would report that)" % (attr(el, "h"), lb[1])))
             s = self.find_session(attr(el, "previd"))
             if s is not None and not v.dishonest:
                 if attr(el, "h") != str(s.out % M32):
@@ -551,6 +568,11 @@ class ServerSim:
                     v.c05.append(("a-value", "answer no. %d carries h=%s, the server had sent %d stanzas before that <r/>" % (self.a_seen + 1, h, exp)))
             elif not v.dishonest:
                 v.c05.append(("a-unsolicited", "client wrote <a h=%s/> without an outstanding <r/>" % h))
+            ss = self.sess         # (only a resumable session has a blob: nothing else could be restored)
+            if (not v.dishonest and ss is not None and ss.established and ss.resumable and ss.alive and h is not None and h.isdigit()
+                    and int(h) not in self.blob_handled):
+                v.c05.append(("blob-h", "client answers <a h=%s/> but no blob given to the application ever carried that inbound count "
+                                        "(a session restored from the newest blob would resume with another h)" % h))
             self.a_seen += 1
             v.bump("a-answers")
             return
@@ -651,6 +673,9 @@ class ServerSim:
         if k == "rxend":
             self.stream_closed = True        # the server closes the stream: the session is over
         if k == "poke":
+            self.poked = True
+            if op[2] is not None:
+                self.blob_handled.add(op[2] % M32)
             s = self.sess
             if self.sm_on and s is not None and s.established and s.alive:
                 if op[2] is not None:
@@ -913,7 +938,11 @@ def gen_honest(rng, max_reconnects=4):
             first = min(i for i, o in enumerate(ops) if o[0] == "sym" and o[1] == "reply" and i > len(ops) - 16)
             ops = ops[:first + 1] + [("tx", ["again", "again"]), ("run",), rng.choice([("rxreset",), ("rxclose",)]), ("run",)]
             ops += reconnect_ops(rng, g)
-    ops += drain_ops(rng, g)
+    # write schedules queued earlier on this connection are still in force during the drain (one token per send() call):
+    # give the drain as many extra iterations as there can be tokens left, so that "every write accepted" is true of it
+    last = max(i for i, o in enumerate(ops) if o[0] == "connect")
+    pending = sum(len(o[1]) for o in ops[last:] if o[0] == "tx")
+    ops += drain_ops(rng, g, pending)
     return ops
 
 
@@ -933,9 +962,10 @@ def reconnect_ops(rng, g, modes=None):
     return ops
 
 
-def drain_ops(rng, g):
+def drain_ops(rng, g, extra=0):
     """Bring the session to rest: live SM session, every write accepted, final acknowledgement."""
     ops = [("sym", "ensure-live", g.new_id())]
+    ops += [("run",)] * extra
     ops += [("run",), ("run",), ("run",), ("dump",), ("sym", "ack", 0), ("run",), ("run",), ("dump",)]
     return ops
 
